@@ -33,6 +33,10 @@ JUSTIFIED = {
 # (kind, descriptor) -> reason.  A site moved into another function keeps its justification.
 JUSTIFIED_ANYWHERE = {
     ("unwrap", "serde_json::to_string"): "serialising the oracle message (an enum of Strings) cannot fail",
+    ("unwrap", "serde_json::to_vec"): "serialising the oracle message (an enum of Strings) cannot fail",
+    ("unwrap", "cosmwasm_std::to_json_string"): "serialising the oracle message (an enum of Strings) cannot fail",
+    ("unwrap", "cosmwasm_std::to_json_vec"): "serialising the oracle message (an enum of Strings) cannot fail",
+    ("unwrap", "cosmwasm_std::to_json_binary"): "serialising the oracle message (an enum of Strings) cannot fail",
     ("unwrap", "Item::load(state)"): "STATE is saved by instantiate on every success path before any other entry point can run",
     ("unwrap", "IbcTimeout::timestamp(IbcTimeout::with_timestamp)"): "a timeout built with with_timestamp always has a timestamp",
     ("unwrap", "IndexedMap::remove(unstake_requests)"): "IndexedMap::remove fails only if the stored record does not deserialise",
@@ -221,7 +225,7 @@ def run(R, env):
                     used_just.add(jk)
                 if how is None and kind == "unwrap" and d == "payload(Map::may_load(batches))" and any(is_load(prog, s_, "pending_batch_id", "staking") for s_ in subterms(subj)):
                     how = "I4'"  # the pending batch always exists (C06.R1 pairing of PENDING_BATCH_ID with BATCHES.save)
-                if how is None and (kind, d) in JUSTIFIED_ANYWHERE and (d != "serde_json::to_string" or any(s_[0] == "agg" and s_[1].endswith("oracle::Oracle") for s_ in subterms(subj))) and not k.endswith("::instantiate"):
+                if how is None and (kind, d) in JUSTIFIED_ANYWHERE and (d not in ("serde_json::to_string", "serde_json::to_vec", "cosmwasm_std::to_json_string", "cosmwasm_std::to_json_vec", "cosmwasm_std::to_json_binary") or any(s_[0] == "agg" and s_[1].endswith("oracle::Oracle") for s_ in subterms(subj))) and not k.endswith("::instantiate"):
                     how = "I4'"
                 R.ob("C16.R2", "%s:%s" % (kind, d), how is not None, "%s of %s is not dominated by a test of the same value and is not in the reviewed justification table (descriptor `%s`)" % (kind, fmt(subj)[:160], d), loc=b.loc(bi), fn=k)
                 if how:
